@@ -14,7 +14,7 @@ namespace Dec.Static
 theorem all_translated3 : Dec.Gen.Code3.untranslated.isEmpty = true := by
   decide +kernel
 
-/-- the 30 functions of `translate/whitelist3.txt` (20 glue functions of d128.rs, 4 digit-group helpers of bid128_2_str_macros.rs, 6 text wrappers, 4 formatter impls, the tiny-after wrapper of bid128_fma) are all there -/
+/-- the 35 functions of `translate/whitelist3.txt` (20 glue functions of d128.rs, 4 digit-group helpers of bid128_2_str_macros.rs, 6 text wrappers, 4 formatter impls, the tiny-after wrapper of bid128_fma) are all there -/
 theorem translated3_count : Dec.Gen.Code3.translated.length = 35 := by
   decide +kernel
 
